@@ -185,7 +185,9 @@ fn check(st: &mut Stats, fmt_name: &str, from: xt::Format, to: xt::Format, data:
 	}
 	let same = s.0 == r.0 && if s.0 == 0 { s.1 == r.1 } else { is_prefix(&s.1, &r.1) || is_prefix(&r.1, &s.1) };
 	if !same {
-		if fmt_name == "json" && json_adjacent_scalars(data) {
+		// the listed class by its signature, not merely by the look of the input: the slice path rejects with "trailing
+		// characters" what the reader path reads on
+		if fmt_name == "json" && json_adjacent_scalars(data) && s.0 == 1 && s.2.contains("trailing characters") {
 			st.known_hits += 1;
 			return;
 		}
